@@ -112,6 +112,8 @@ type world struct {
 	vv  map[string]string // scheme vv: key -> text
 	env map[string]string // scheme env: set variables
 	def string            // default scheme ("" = none)
+	// trace, when set, records every resolved uri (scheme:opaque) the interpreters looked up
+	trace map[string]int
 }
 
 var (
@@ -162,6 +164,9 @@ func (w *world) lookup(uri string) (entry, string, error) {
 		raw = opaque
 	default:
 		return entry{}, "", fmt.Errorf("%w: no provider for scheme %q", errRef, scheme)
+	}
+	if w.trace != nil {
+		w.trace[scheme+":"+opaque]++
 	}
 	e := classify(raw)
 	if e.kind == kUnsupported {
